@@ -28,6 +28,10 @@ func genC12(g gen.G) C12Case {
 	if g.Chance(55) {
 		o.Edits = 0
 	}
+	if g.Chance(35) {
+		// well-typed, parse-clean values: the innermost-literal clause applies to most of them
+		o.Cfg.Typed, o.Cfg.HalfTyped, o.Edits = true, 0, 0
+	}
 	return C12Case{World: g.World(o)}
 }
 
@@ -217,6 +221,25 @@ func checkC12(c C12Case) Result {
 						r.Fail("hover-label-description", "%s on label %q: content %q lacks the description %q given by the effective schema", cl, b.Labels[loc.LabelIdx], hd.Content.Value, wantDesc)
 					}
 				case "attrValue":
+					// innermost interpretable sub-expression: a plain literal inside a value whose
+					// shape fits its constraint is described by itself
+					if clean && fi.posModel && !loc.BC.Undetermined {
+						if as, ok := attrSchemaAt(loc); ok {
+							if vt, ok := refmodel.ModelValueTokens(as.Cons, loc.Attr.Expr, p.Funcs); ok {
+								for _, lt := range vt.Required {
+									if (lt.Type != "hcl-number" && lt.Type != "hcl-bool" && lt.Type != "hcl-string") || off <= lt.Start || off >= lt.End {
+										continue
+									}
+									r.Class("value:cursor-inside-determined-literal")
+									if !got {
+										r.Fail("hover-literal-missing", "%s strictly inside the literal %d-%d (%s) of a value that fits its constraint (%s): no hover data (err %v)\n%s", cl, lt.Start, lt.End, lt.Type, as.Cons.K, res.Err, clip(f.Text, 700))
+									} else if hd.Range.Start.Byte != lt.Start || hd.Range.End.Byte != lt.End {
+										r.Fail("hover-literal-not-innermost", "%s strictly inside the literal %d-%d (%s): hover range %d-%d is not that literal (content %q)\n%s", cl, lt.Start, lt.End, lt.Type, hd.Range.Start.Byte, hd.Range.End.Byte, clip(hd.Content.Value, 200), clip(f.Text, 700))
+									}
+								}
+							}
+						}
+					}
 					if got {
 						r.Class("value")
 						er := loc.Attr.Expr.Range()
@@ -238,6 +261,24 @@ func checkC12(c C12Case) Result {
 	}
 	r.NonTrivial = hovers > 0
 	return r
+}
+
+// attrSchemaAt returns the schema of the attribute under the cursor (declared or any-attribute).
+func attrSchemaAt(loc refmodel.Loc) (m.AttrM, bool) {
+	if loc.BC == nil || loc.BC.Schema == nil || loc.Attr == nil {
+		return m.AttrM{}, false
+	}
+	s := loc.BC.Schema
+	if s.Ext != nil && (loc.Attr.Name == "count" || loc.Attr.Name == "for_each") {
+		return m.AttrM{}, false
+	}
+	if a, ok := s.Attrs[loc.Attr.Name]; ok {
+		return a, true
+	}
+	if s.AnyAttr != nil {
+		return *s.AnyAttr, true
+	}
+	return m.AttrM{}, false
 }
 
 func TestC12(t *testing.T)        { Run(t, "C12", genC12, checkC12) }
